@@ -76,6 +76,11 @@ class ChunkSock(ChunkFile):
     def recv(self, n):
         return self.read(n)
 
+    def recv_into(self, buf, nbytes=0):
+        data = self.read(nbytes or len(buf))
+        buf[: len(data)] = data
+        return len(data)
+
     def setsockopt(self, *a):
         pass
 
